@@ -4,7 +4,11 @@
 // field independently set or unset, guarded fields biased towards values that are
 // compatible with the endorsement) against generated endorsements, for every
 // combination of overwrite / allow-unspecified and several VMSA counts / RAM
-// sizes. A reference model written from the property text says what a successful
+// sizes. The endorsement fields that derivation does not use are populated too
+// (svsm_measurement related to the base and the measurement table, a second CA
+// bundle at golden level, cert, commit, timestamp, TDX SVN, unknown fields), so
+// that a derivation that starts reading one of them is judged against the same
+// clauses about the base policy. A reference model written from the property text says what a successful
 // derivation may look like; refusals are never judged, only counted.
 package c17
 
@@ -25,6 +29,7 @@ import (
 	"google.golang.org/protobuf/encoding/protowire"
 	"google.golang.org/protobuf/proto"
 	"google.golang.org/protobuf/reflect/protoreflect"
+	"google.golang.org/protobuf/types/known/timestamppb"
 
 	"verifharness/core"
 	"verifharness/gen"
@@ -38,16 +43,17 @@ const (
 func init() {
 	core.Register(&core.Info{
 		ID: "C17", Level: "exploration",
-		Rule: "case = (generated endorsement: guest policy, SVN, measurement table, CA bundle of 12 shapes, 0..4 TDX rows; SEV base policy nil or protoreflect-filled with every field independently set/unset, spare capacity behind the key lists, optional unknown fields, guarded fields drawn as unset / equal to the endorsement / conflicting; TDX base likewise). " +
+		Rule: "case = (generated endorsement: guest policy, SVN, measurement table, CA bundle of 12 shapes, 0..4 TDX rows, and every endorsement field the derivation has no business reading populated as a decoy: svsm_measurement unset / fresh / equal to a listed measurement / equal to the base's measurement, golden-level ca_bundle / cert / commit / timestamp, TDX svn, unknown fields; SEV base policy nil or protoreflect-filled with every field independently set/unset, spare capacity behind the key lists, optional unknown fields, guarded fields drawn as unset / equal to the endorsement / conflicting; TDX base likewise). " +
 			"Each case calls SevPolicy for overwrite x allow-unspecified x VMSA count in {0, listed, listed-and-equal-to-base, unlisted} and TdxPolicy for overwrite x RAM size in {0, listed, unlisted, negative, >32 bit}. " +
 			"Oracle (successes only; refusals are counted, not judged): base equals its snapshot (proto.Equal, deterministic bytes, sentinels behind the key lists) after every call; result is a different object and flipping every byte / nested scalar of it leaves base unchanged; " +
 			"without overwrite a set guest policy / measurement / any_mr_td survives and minimum_guest_svn is unchanged and not above the endorsed SVN; written measurement, guest policy, MRTD list and appended keys are the endorsement's (guest policy with overwrite may stay the base's non-zero value, as documented); malformed CA bundles and unlisted / unspecified VMSA counts are not accepted; every other field (and unknown fields) equals base or the documented default. " +
-			"non-trivial = distinct (overwrite, relation of each guarded base field to the endorsement, VMSA/RAM request kind, bundle shape, outcome) cells",
+			"non-trivial = distinct (overwrite, relation of each guarded base field to the endorsement, VMSA/RAM request kind, bundle shape, relation of svsm_measurement to the base and the measurement table, outcome) cells",
 		Assumptions: []string{
 			"with overwrite and a non-zero base guest policy the result may carry either the base's or the endorsement's guest policy (sevpolicy.go documents the former)",
 			"with overwrite minimum_guest_svn is not judged (it is a guarded field, and overwrite lifts the guard)",
 			"a successful derivation without overwrite whose base minimum_guest_svn exceeds the endorsed SVN counts as a violation (the conflict check named in the property's mechanism list)",
 			"CA bundle shapes whose treatment the property does not fix (text before the first block, white space after the last) are only judged when accepted: the appended keys must then be the bundle's certificates",
+			"a result measurement equal to the endorsement's non-empty svsm_measurement counts as 'of the endorsement' (counted, not judged by measurement-not-endorsed / unlisted-vmsas-accepted); the base's own set measurement must still survive without overwrite whatever the endorsement carries",
 			"the MRTD allow-list is compared as a multiset (order is not part of the property)",
 			"SevPolicy/TdxPolicy do not check signatures, so endorsements are unsigned payloads"},
 		ShardsQuick: 8, ShardsThor: 16, TimeoutS: 600, TimeoutThor: 3000, Run: run,
@@ -188,6 +194,9 @@ type endorsed struct {
 	meas           map[uint32][]byte
 	bundle         *bundle
 	rows           []row
+	svsm           []byte // VMSevSnp.svsm_measurement as sent (nil = unset)
+	svsmRel        string // unset | fresh | listed | base | short
+	decoys         string // which further endorsement fields were populated
 }
 
 type row struct {
@@ -197,7 +206,7 @@ type row struct {
 
 var vmsaKeys = []uint32{1, 2, 4, 8, 64, 255}
 
-func genEndorsement(r *rand.Rand) (*epb.VMLaunchEndorsement, *endorsed) {
+func genEndorsement(r *rand.Rand) (*epb.VMGoldenMeasurement, *endorsed) {
 	e := &endorsed{hasSnp: r.IntN(40) != 0, hasTdx: r.IntN(40) != 0, meas: map[uint32][]byte{}}
 	g := &epb.VMGoldenMeasurement{ClSpec: uint64(r.IntN(1000)), Digest: rbytes(r, 48)}
 	switch r.IntN(10) {
@@ -253,12 +262,84 @@ func genEndorsement(r *rand.Rand) (*epb.VMLaunchEndorsement, *endorsed) {
 		}
 		g.Tdx = t
 	}
-	gb, err := proto.Marshal(g)
-	if err != nil {
-		panic(err)
-	}
-	return &epb.VMLaunchEndorsement{SerializedUefiGolden: gb, Signature: rbytes(r, 16)}, e
+	return g, e
 }
+
+// decorate populates the endorsement fields that policy derivation does not use (or that the
+// property does not name as a source of policy values) with values that look like the real
+// thing: a second measurement next to the per-VMSA table, a second CA bundle one level up,
+// signer certificate, commit, timestamp, TDX SVN, unknown fields. Whatever the derivation
+// makes of them, the clauses of the property about the base policy are judged as before.
+// Drawn after the base policies so that svsm_measurement can be related to the base.
+func decorate(r *rand.Rand, g *epb.VMGoldenMeasurement, e *endorsed, sb *sevBase) {
+	var keys []uint32
+	for _, k := range vmsaKeys {
+		if len(e.meas[k]) > 0 {
+			keys = append(keys, k)
+		}
+	}
+	e.svsmRel = "unset"
+	switch x := r.IntN(12); {
+	case x < 3:
+	case x < 4:
+		e.svsm, e.svsmRel = rbytes(r, []int{1, 32, 47, 64}[r.IntN(4)]), "short"
+	case x < 6 && len(keys) > 0:
+		e.svsm, e.svsmRel = cp(e.meas[keys[r.IntN(len(keys))]]), "listed"
+	case x < 8 && sb.p != nil && len(sb.p.Measurement) > 0:
+		e.svsm, e.svsmRel = cp(sb.p.Measurement), "base"
+		if sb.measKind == "endorsed" {
+			e.svsmRel = "listed"
+		}
+	default:
+		e.svsm, e.svsmRel = rbytes(r, 48), "fresh"
+	}
+	var d []string
+	if g.SevSnp != nil {
+		g.SevSnp.SvsmMeasurement = cp(e.svsm)
+		if r.IntN(8) == 0 {
+			g.SevSnp.ProtoReflect().SetUnknown(unknownField(r))
+			d = append(d, "snp-unknown")
+		}
+	}
+	if r.IntN(2) == 0 { // a bundle of another shape and with other certificates than sev_snp.ca_bundle
+		g.CaBundle = genBundle(r).pem
+		d = append(d, "golden-ca-bundle")
+	}
+	if r.IntN(2) == 0 {
+		g.Cert = rbytes(r, 40+r.IntN(40))
+		d = append(d, "cert")
+	}
+	if r.IntN(2) == 0 {
+		g.Commit = rbytes(r, 20)
+		d = append(d, "commit")
+	}
+	if r.IntN(2) == 0 {
+		g.Timestamp = &timestamppb.Timestamp{Seconds: int64(r.IntN(1 << 31)), Nanos: int32(r.IntN(1000000000))}
+		d = append(d, "timestamp")
+	}
+	if g.Tdx != nil {
+		if r.IntN(2) == 0 {
+			g.Tdx.Svn = uint32(1 + r.IntN(5))
+			d = append(d, "tdx-svn")
+		}
+		if r.IntN(8) == 0 {
+			g.Tdx.ProtoReflect().SetUnknown(unknownField(r))
+			d = append(d, "tdx-unknown")
+		}
+	}
+	if r.IntN(8) == 0 {
+		g.ProtoReflect().SetUnknown(unknownField(r))
+		d = append(d, "golden-unknown")
+	}
+	e.decoys = strings.Join(d, ",")
+}
+
+func unknownField(r *rand.Rand) []byte {
+	u := protowire.AppendTag(nil, protowire.Number(1000+r.IntN(50)), protowire.BytesType)
+	return protowire.AppendBytes(u, rbytes(r, 48))
+}
+
+func (e *endorsed) isSvsm(m []byte) bool { return len(e.svsm) > 0 && bytes.Equal(m, e.svsm) }
 
 // listed returns the MRTDs the endorsement lists for a RAM request (0 = all).
 func (e *endorsed) listed(ram int) [][]byte {
@@ -609,6 +690,8 @@ func stripDigits(s string) string {
 type tally struct {
 	sevOK, sevOKFilled, sevOKNil, sevOKOverwriteDiffers         int
 	sevKeepPolicy, sevKeepMeas, sevKeepSvn                      int
+	sevKeepMeasBesideSvsm, sevOKWithSvsm, sevSvsmInResult       int
+	tdxOKDecorated                                              int
 	sevRefPolicy, sevRefMeas, sevRefSvn, sevRefBundle, sevRefNo int
 	sevKeysAppended, sevKeysBoth                                int
 	tdxOK, tdxOKFilled, tdxGuardRefused, tdxOverwritten         int
@@ -624,11 +707,17 @@ func run(c *core.Ctx) {
 			continue
 		}
 		r := c.Rand(i)
-		end, e := genEndorsement(r)
-		endSnap := cp(end.SerializedUefiGolden)
+		g, e := genEndorsement(r)
 		sb := genSevBase(r, e)
 		tb := genTdxBase(r, e)
-		gname := fmt.Sprintf("case#%d snp=%v tdx=%v bundle=%s sevbase[policy=%s meas=%s minsvn=%s] tdxbase[%s]", i, e.hasSnp, e.hasTdx, e.bundle.kind, sb.polRel, sb.measKind, sb.svnRel, tb.kind)
+		decorate(r, g, e, sb)
+		gb, merr := proto.Marshal(g)
+		if merr != nil {
+			panic(merr)
+		}
+		end := &epb.VMLaunchEndorsement{SerializedUefiGolden: gb, Signature: rbytes(r, 16)}
+		endSnap := cp(end.SerializedUefiGolden)
+		gname := fmt.Sprintf("case#%d snp=%v tdx=%v bundle=%s svsm=%s decoys[%s] sevbase[policy=%s meas=%s minsvn=%s] tdxbase[%s]", i, e.hasSnp, e.hasTdx, e.bundle.kind, e.svsmRel, e.decoys, sb.polRel, sb.measKind, sb.svnRel, tb.kind)
 		c.Begin(i, gname, "SevPolicy+TdxPolicy", end.SerializedUefiGolden)
 		sevCase(c, ctx, i, r, gname, end, e, sb, &t)
 		tdxCase(c, ctx, i, r, gname, end, e, tb, &t)
@@ -644,6 +733,10 @@ func run(c *core.Ctx) {
 	c.Count("sev/kept-set-guest-policy", t.sevKeepPolicy)
 	c.Count("sev/kept-set-measurement", t.sevKeepMeas)
 	c.Count("sev/kept-set-min-guest-svn", t.sevKeepSvn)
+	c.Count("sev/kept-set-measurement-beside-a-different-svsm-measurement", t.sevKeepMeasBesideSvsm)
+	c.Count("sev/derived-from-endorsement-with-svsm-measurement", t.sevOKWithSvsm)
+	c.Count("sev/result-measurement-is-svsm-measurement-not-the-vmsa-row(not judged)", t.sevSvsmInResult)
+	c.Count("tdx/derived-from-endorsement-with-unused-fields-set", t.tdxOKDecorated)
 	c.Count("sev/refused-guest-policy-conflict", t.sevRefPolicy)
 	c.Count("sev/refused-measurement-conflict", t.sevRefMeas)
 	c.Count("sev/refused-min-guest-svn-conflict", t.sevRefSvn)
@@ -659,6 +752,8 @@ func run(c *core.Ctx) {
 	c.Floor("sev-derived-from-filled-base", t.sevOKFilled > 0)
 	c.Floor("sev-derived-from-nil-base", t.sevOKNil > 0)
 	c.Floor("sev-kept-set-guest-policy-measurement-minsvn", t.sevKeepPolicy > 0 && t.sevKeepMeas > 0 && t.sevKeepSvn > 0)
+	c.Floor("sev-kept-set-measurement-beside-a-different-svsm-measurement", t.sevKeepMeasBesideSvsm > 0)
+	c.Floor("derived-from-endorsements-with-unused-fields-set", t.sevOKWithSvsm > 0 && t.tdxOKDecorated > 0)
 	c.Floor("sev-refused-each-guarded-conflict", t.sevRefPolicy > 0 && t.sevRefMeas > 0 && t.sevRefSvn > 0)
 	c.Floor("sev-overwrite-over-conflicting-base", t.sevOKOverwriteDiffers > 0)
 	c.Floor("sev-keys-appended-and-malformed-bundle-refused", t.sevKeysBoth > 0 && t.sevRefBundle > 0)
@@ -715,7 +810,8 @@ func sevCase(c *core.Ctx, ctx context.Context, i int, r *rand.Rand, gname string
 			}
 			witness := func() any {
 				return map[string]any{"base": js(snap), "base_is_nil": snap == nil, "endorsement_serialized_uefi_golden": end.SerializedUefiGolden,
-					"launch_vmsas": req, "overwrite": ow, "allow_unspecified_vmsas": allow, "result": js(res), "error": fmt.Sprint(err)}
+					"launch_vmsas": req, "overwrite": ow, "allow_unspecified_vmsas": allow, "result": js(res), "error": fmt.Sprint(err),
+					"endorsed_measurement_for_launch_vmsas": fmt.Sprintf("%x", e.meas[req]), "endorsed_svsm_measurement": fmt.Sprintf("%x", e.svsm)}
 			}
 			viol := func(rule, format string, a ...any) {
 				c.Violate(core.Violation{Kind: "oracle", Entry: entSev, Site: rule, Gen: call, Case: i, Detail: fmt.Sprintf(format, a...), Witness: witness()})
@@ -764,6 +860,7 @@ func sevCase(c *core.Ctx, ctx context.Context, i int, r *rand.Rand, gname string
 			c.Cell("sev-guarded|ow=%v|policy=%s|meas=%s|minsvn=%s|%s", ow, sb.polRel, sb.measKind, sb.svnRel, outcome)
 			c.Cell("sev-request|ow=%v|allow=%v|%s|expect=%s|%s", ow, allow, vmsaKind, expect, outcome)
 			c.Cell("sev-bundle|%s|%s", e.bundle.kind, outcome)
+			c.Cell("sev-svsm|ow=%v|svsm=%s|meas=%s|%s|%s", ow, e.svsmRel, sb.measKind, vmsaKind, outcome)
 			if err != nil {
 				switch expect {
 				case "ok":
@@ -792,6 +889,9 @@ func sevCase(c *core.Ctx, ctx context.Context, i int, r *rand.Rand, gname string
 				continue
 			}
 			t.sevOK++
+			if len(e.svsm) > 0 {
+				t.sevOKWithSvsm++
+			}
 			if base == nil {
 				t.sevOKNil++
 			} else {
@@ -814,6 +914,9 @@ func sevCase(c *core.Ctx, ctx context.Context, i int, r *rand.Rand, gname string
 						viol("measurement-overwritten", "base measurement %x replaced by %x without overwrite", ref.Measurement, res.Measurement)
 					} else {
 						t.sevKeepMeas++
+						if len(e.svsm) > 0 && !bytes.Equal(e.svsm, ref.Measurement) {
+							t.sevKeepMeasBesideSvsm++
+						}
 					}
 				}
 				if ref.MinimumGuestSvn != 0 {
@@ -842,16 +945,21 @@ func sevCase(c *core.Ctx, ctx context.Context, i int, r *rand.Rand, gname string
 			if req != 0 {
 				want, ok := e.meas[req]
 				switch {
+				case ok && bytes.Equal(res.Measurement, want):
+				case e.isSvsm(res.Measurement): // the endorsement's other measurement: "of the endorsement", not judged here
+					t.sevSvsmInResult++
 				case !ok:
 					viol("unlisted-vmsas-accepted", "the endorsement lists no measurement for %d VMSAs, yet a policy was derived (measurement %x)", req, res.Measurement)
-				case !bytes.Equal(res.Measurement, want):
-					viol("measurement-not-endorsed", "result measurement %x, endorsement lists %x for %d VMSAs", res.Measurement, want, req)
+				default:
+					viol("measurement-not-endorsed", "result measurement %x, endorsement lists %x for %d VMSAs (svsm_measurement %x)", res.Measurement, want, req, e.svsm)
 				}
 			} else {
 				if !allow {
 					viol("unspecified-vmsas-accepted", "launch_vmsas=0 without allow-unspecified produced a policy")
 				}
-				if len(res.Measurement) != 0 && !bytes.Equal(res.Measurement, ref.Measurement) {
+				if len(res.Measurement) != 0 && !bytes.Equal(res.Measurement, ref.Measurement) && e.isSvsm(res.Measurement) {
+					t.sevSvsmInResult++
+				} else if len(res.Measurement) != 0 && !bytes.Equal(res.Measurement, ref.Measurement) {
 					viol("measurement-not-endorsed", "no VMSA count given, yet the result carries measurement %x (base had %x)", res.Measurement, ref.Measurement)
 				}
 			}
@@ -989,6 +1097,9 @@ func tdxCase(c *core.Ctx, ctx context.Context, i int, r *rand.Rand, gname string
 				continue
 			}
 			t.tdxOK++
+			if e.decoys != "" {
+				t.tdxOKDecorated++
+			}
 			if base != nil {
 				t.tdxOKFilled++
 			}
